@@ -59,7 +59,7 @@ var ReflectHookNames = []string{"OnChild", "OnField(never selected)", "OnField(s
 func Variant(r *kit.Rng, base string) string {
 	var n int
 	switch base {
-	case "nstruct", "nmap", "nacc":
+	case "nstruct", "nmap", "nacc", "nstruct0":
 		n = len(NodeHookNames)
 	case "rstruct", "rmap":
 		n = len(ReflectHookNames)
